@@ -212,6 +212,35 @@ fn const_j<'tcx>(tcx: TyCtxt<'tcx>, owner: DefId, c: &mir::ConstOperand<'tcx>) -
                 _ => {}
             }
             f.push(("text", J::s(format!("{}", c.const_))));
+            // a reference to a small constant aggregate (`&Self::MAX`, a promoted): the bytes it points to and the pointee's field layout
+            if let ty::Ref(_, inner, _) = t.kind() {
+                if let Ok(mir::ConstValue::Scalar(rustc_middle::mir::interpret::Scalar::Ptr(ptr, _))) = c.const_.eval(tcx, env, c.span) {
+                    let aid = ptr.provenance.alloc_id();
+                    if let Some(rustc_middle::mir::interpret::GlobalAlloc::Memory(a)) = tcx.try_get_global_alloc(aid) {
+                        if let Ok(layout) = tcx.layout_of(env.as_query_input(*inner)) {
+                            let size = layout.size.bytes() as usize;
+                            let a = a.inner();
+                            let lo = ptr.into_raw_parts().1.bytes() as usize;
+                            if size <= 64 && lo + size <= a.len() {
+                                let bytes = a.inspect_with_uninit_and_ptr_outside_interpreter(lo..lo + size);
+                                let hex: String = bytes.iter().map(|b| format!("{:02x}", b)).collect();
+                                f.push(("deref_bytes_le", J::s(hex)));
+                                f.push(("deref_ty", ty_j(tcx, *inner)));
+                                if let ty::Adt(adef, _) = inner.kind() {
+                                    if adef.is_struct() {
+                                        let mut fl = Vec::new();
+                                        for (i, fd) in adef.non_enum_variant().fields.iter().enumerate() {
+                                            let fo = layout.fields.offset(i).bytes();
+                                            fl.push(J::obj(vec![("name", J::s(fd.name.to_string())), ("offset", J::n(fo as i128))]));
+                                        }
+                                        f.push(("deref_fields", J::arr(fl)));
+                                    }
+                                }
+                            }
+                        }
+                    }
+                }
+            }
         }
     }
     J::obj(f)
@@ -641,6 +670,64 @@ fn dump<'tcx>(tcx: TyCtxt<'tcx>, krate: &str) -> String {
                     let tr = tcx.impl_trait_ref(did).instantiate_identity().skip_norm_wip();
                     f.push(("trait", J::s(dp(tcx, tr.def_id))));
                     f.push(("trait_ref", J::s(format!("{}", tr))));
+                    // associated consts of the trait evaluated FOR THIS IMPL (also the ones the impl inherits as trait defaults)
+                    if tcx.generics_of(did).count() == 0 {
+                        let tenv = ty::TypingEnv::fully_monomorphized();
+                        for it in tcx.associated_items(tr.def_id).in_definition_order() {
+                            if !matches!(it.kind, ty::AssocKind::Const { .. }) {
+                                continue;
+                            }
+                            if let Ok(Some(inst)) = ty::Instance::try_resolve(tcx, tenv, it.def_id, tr.args) {
+                                if let Ok(v) = tcx.const_eval_instance(tenv, inst, tcx.def_span(did)) {
+                                    let ct = tcx.type_of(it.def_id).instantiate(tcx, tr.args).skip_norm_wip();
+                                    let mut cf = vec![
+                                        ("id", J::s(format!("<{} as {}>::{}", st, dp(tcx, tr.def_id), it.name()))),
+                                        ("kind", J::s("ImplAssocConst".to_string())),
+                                        ("span", span_j(tcx, tcx.def_span(did))),
+                                        ("ty", ty_j(tcx, ct)),
+                                    ];
+                                    let mut raw = String::new();
+                                    let _ = write!(raw, "{:?}", v);
+                                    cf.push(("raw", J::s(raw)));
+                                    if let Some(sc) = v.try_to_scalar_int() {
+                                        let size = sc.size();
+                                        let n: i128 = if ct.is_signed() { sc.to_int(size) } else { sc.to_uint(size) as i128 };
+                                        cf.push(("val", J::n(n)));
+                                    } else if let mir::ConstValue::Indirect { alloc_id, offset } = v {
+                                        // a small aggregate (e.g. a Duration): its bytes and the layout of its fields
+                                        if let Ok(layout) = tcx.layout_of(tenv.as_query_input(ct)) {
+                                            let size = layout.size.bytes() as usize;
+                                            if size <= 64 {
+                                                if let rustc_middle::mir::interpret::GlobalAlloc::Memory(a) = tcx.global_alloc(alloc_id) {
+                                                    let a = a.inner();
+                                                    let lo = offset.bytes() as usize;
+                                                    if lo + size <= a.len() {
+                                                        let bytes = a.inspect_with_uninit_and_ptr_outside_interpreter(lo..lo + size);
+                                                        let hex: String = bytes.iter().map(|b| format!("{:02x}", b)).collect();
+                                                        cf.push(("bytes_le", J::s(hex)));
+                                                    }
+                                                }
+                                                if let ty::Adt(adef, _) = ct.kind() {
+                                                    if adef.is_struct() {
+                                                        let mut fl = Vec::new();
+                                                        for (i, fd) in adef.non_enum_variant().fields.iter().enumerate() {
+                                                            let fo = layout.fields.offset(i).bytes();
+                                                            fl.push(J::obj(vec![
+                                                                ("name", J::s(fd.name.to_string())),
+                                                                ("offset", J::n(fo as i128)),
+                                                            ]));
+                                                        }
+                                                        cf.push(("fields", J::arr(fl)));
+                                                    }
+                                                }
+                                            }
+                                        }
+                                    }
+                                    consts.push(J::obj(cf));
+                                }
+                            }
+                        }
+                    }
                     let hdr = tcx.impl_trait_header(did);
                     f.push(("unsafe", J::b(hdr.safety.is_unsafe())));
                     f.push(("negative", J::b(matches!(hdr.polarity, ty::ImplPolarity::Negative))));
@@ -705,6 +792,32 @@ fn dump<'tcx>(tcx: TyCtxt<'tcx>, krate: &str) -> String {
                                 sc.to_uint(size) as i128
                             };
                             f.push(("val", J::n(n)));
+                        } else if let mir::ConstValue::Indirect { alloc_id, offset } = v {
+                            let tenv = ty::TypingEnv::fully_monomorphized();
+                            if let Ok(layout) = tcx.layout_of(tenv.as_query_input(t)) {
+                                let size = layout.size.bytes() as usize;
+                                if size <= 64 {
+                                    if let rustc_middle::mir::interpret::GlobalAlloc::Memory(a) = tcx.global_alloc(alloc_id) {
+                                        let a = a.inner();
+                                        let lo = offset.bytes() as usize;
+                                        if lo + size <= a.len() {
+                                            let bytes = a.inspect_with_uninit_and_ptr_outside_interpreter(lo..lo + size);
+                                            let hex: String = bytes.iter().map(|b| format!("{:02x}", b)).collect();
+                                            f.push(("bytes_le", J::s(hex)));
+                                        }
+                                    }
+                                    if let ty::Adt(adef, _) = t.kind() {
+                                        if adef.is_struct() {
+                                            let mut fl = Vec::new();
+                                            for (i, fd) in adef.non_enum_variant().fields.iter().enumerate() {
+                                                let fo = layout.fields.offset(i).bytes();
+                                                fl.push(J::obj(vec![("name", J::s(fd.name.to_string())), ("offset", J::n(fo as i128))]));
+                                            }
+                                            f.push(("fields", J::arr(fl)));
+                                        }
+                                    }
+                                }
+                            }
                         }
                     }
                 }
